@@ -9,7 +9,7 @@ import ast
 from typing import Any, Dict, List, Optional, Set, Tuple
 
 from ..cfg import cfg_of
-from ..fsmodel import StoreModel, Effect, show, flatten, mentions_sym, mentions_attr, unique_sources, strip_unique, contains
+from ..fsmodel import StoreModel, Effect, show, flatten, mentions_sym, mentions_attr, unique_sources, strip_unique, contains, expand_attrs
 from ..model import Func, Class, AnchorError, unparse, stmt_key, f_cls
 from .common import Ctx, dominated, done_nodes, STORE_IFACE, raises_with_code, pass_outcomes
 
@@ -498,6 +498,110 @@ def writer_reader_agree(ctx: Ctx, v: LocalView, rule: str) -> int:
         else:
             rep.bad(rule, _site(v, "sync_paths"), desc, e.where(), [f"{e.where()}: link target {show(e.src)}"], "link-target",
                     what="the entry of a path does not point to the blob the store serves")
+    return n
+
+
+def no_resolved_vs_lexical_rejection(ctx: Ctx, v: LocalView, rule: str) -> int:
+    """No `raise` of the store methods is decided by comparing a symlink-RESOLVED location (realpath) with a location that is only
+    made absolute (the root attributes are abspath, not realpath): with a directory reached through a symbolic link the two
+    never compare equal, and a usable configuration is rejected."""
+    rep = ctx.report
+    m = v.m
+    n = 0
+    for method in ("has_blob", "fetch_blob", "store_blob", "sync_paths", "fetch_paths"):
+        m.expr_terms = {}
+        m.effects_of(method)
+        f = v.func(method)
+        funcs = [f] + [g for g in v.cls.methods.values() if g is not f and g.name.startswith("_")]
+        for g in funcs:
+            for r in [x for x in g.own_nodes() if isinstance(x, ast.Raise)]:
+                guard = None
+                for a in _ancestors_of(g, r):
+                    if isinstance(a, ast.If):
+                        guard = a
+                        break
+                if guard is None:
+                    continue
+                for c in ast.walk(guard.test):
+                    if not (isinstance(c, ast.Compare) and len(c.ops) == 1 and isinstance(c.ops[0], (ast.Eq, ast.NotEq))):
+                        continue
+                    lt, rt = m.expr_terms.get(id(c.left)), m.expr_terms.get(id(c.comparators[0]))
+                    if lt is None or rt is None:
+                        continue
+                    for x, y in ((lt, rt), (rt, lt)):
+                        has_real = contains(x, lambda t: isinstance(t, tuple) and t and t[0] == "real")
+                        y_exp = expand_attrs(y, m)
+                        lexical_root = contains(y, lambda t: isinstance(t, tuple) and t[:1] == ("attr",)) and not contains(y_exp, lambda t: isinstance(t, tuple) and t and t[0] == "real")
+                        if has_real and lexical_root:
+                            n += 1
+                            rep.bad(rule, g.qname, "no rejection is decided by comparing a resolved location with a merely absolute one", g.loc(c),
+                                    [f"{g.loc(c)}: `{unparse(c, 80)}` compares {show(x)[:90]} with {show(y)[:60]} (= {show(y_exp)[:60]})",
+                                     f"{g.loc(r)}: the mismatch raises `{unparse(r.exc, 60) if r.exc is not None else 'raise'}`",
+                                     "with internal_dir given through a symbolic link (symlinked parent, /tmp on macOS) realpath never equals the abspath-based location: "
+                                     "keep works and the first load fails"], stmt_key(c), what="a store reached through a symbolic link is rejected at read time")
+    if n == 0:
+        rep.ok(rule, v.cls.qname, "no rejection is decided by comparing a resolved location with a merely absolute one", v.cls.module.relpath)
+    return n
+
+
+def presence_ignores_size(ctx: Ctx, v: LocalView, rule: str) -> int:
+    """whether a blob is present never depends on the SIZE of the blob file: the verbatim text / bytes codecs legitimately
+    write a zero-length file for '' and b''"""
+    rep = ctx.report
+    m = v.m
+    n = 0
+    blob_terms = [t for t in v.visible if _key_suffix(t) == ""]
+    for method in ("has_blob", "fetch_blob"):
+        n += 1
+        m.expr_terms = {}
+        m.effects_of(method)
+        f = v.func(method)
+        funcs = [f] + [g for g in ctx.prog.funcs.values() if g.module is f.module and g is not f]
+        wit = []
+        for g in funcs:
+            for c in g.own_nodes():
+                if isinstance(c, ast.Call) and c.args and (unparse(c.func).endswith("getsize") or unparse(c.func) in ("os.stat", "os.lstat")):
+                    t = m.expr_terms.get(id(c.args[0]))
+                    if t is not None and (t in blob_terms or (not blob_terms and mentions_sym(t, "KEY") and _key_suffix(t) == "")):
+                        wit.append(f"{g.loc(c)}: `{unparse(c, 50)}` on the blob file {show(t)} takes part in {method}")
+        desc = f"{method}: presence does not depend on the size of the blob file"
+        if wit:
+            rep.bad(rule, _site(v, method), desc, f.loc(), wit + [
+                "dds.keep of a function returning '' (or b''): the string / bytes codecs store the value verbatim, i.e. a zero-length file; the blob is reported absent, "
+                "load returns None instead of '' and the function is recomputed on every call"], f"size-presence:{method}",
+                what="empty text / bytes results are not read back (presence depends on the blob's size)")
+        else:
+            rep.ok(rule, _site(v, method), desc, f.loc())
+    return n
+
+
+def presence_from_fs(ctx: Ctx, v: LocalView, rule: str) -> int:
+    """has_blob / fetch_blob / fetch_paths decide from the file system at the time of the call: each probes (or reads) a name
+    built from its argument, and has_blob's answer reads no per-instance state besides the root directories"""
+    rep = ctx.report
+    n = 0
+    root_attrs = {a for a in v.m.attr_defs}
+    for method, terms in (("has_blob", v.H), ("fetch_blob", v.F), ("fetch_paths", v.L)):
+        n += 1
+        f = v.func(method)
+        desc = f"{method} looks its argument up in the file system on every call"
+        wit = []
+        if not terms:
+            wit.append(f"{f.loc()}: no probe / read of a name built from the argument")
+        if method == "has_blob":
+            init_dirs = {a for a, d in v.m.attr_defs.items() if isinstance(d, tuple)}
+            for r in [x for x in f.own_nodes() if isinstance(x, ast.Return) and x.value is not None]:
+                for x in ast.walk(r.value):
+                    if isinstance(x, ast.Attribute) and isinstance(x.value, ast.Name) and x.value.id == "self" and x.attr not in ("_root", "_data_root") \
+                            and not isinstance(f.module.parent.get(x), ast.Call):
+                        wit.append(f"{f.loc(x)}: the answer is read from `self.{x.attr}` (state of this store object)")
+        if wit:
+            rep.bad(rule, _site(v, method), desc, f.loc(), wit + [
+                "an index kept in the store object goes stale as soon as another store object (a second data view, another process) writes to the same internal "
+                "directory: its blobs are not seen and the functions are recomputed (two data views of one internal directory must share computed blobs)"],
+                f"presence-memory:{method}", what=f"{method} answers from in-memory state instead of the shared directory")
+        else:
+            rep.ok(rule, _site(v, method), desc, f.loc())
     return n
 
 
